@@ -169,6 +169,292 @@ func init() {
 	})
 }
 
+const (
+	pkgRing    = "rcproxy/core/pkg/buffer/ring"
+	pkgList    = "rcproxy/core/pkg/buffer/linkedlist"
+	pkgElastic = "rcproxy/core/pkg/buffer/elastic"
+	pkgAuthip  = "rcproxy/core/authip"
+)
+
+func world(prop, m1, m2, steps, kinds, faults int64) *JobCfg {
+	j := job(pkgServer, "HarnessWorld", prop, m1, m2, steps, kinds, faults)
+	j.MapOrderSites = []string{"OnCReact", "CRespCodec).MGet"}
+	return j
+}
+
+func pipe(prop, m, steps, kinds int64) *JobCfg {
+	j := job(pkgServer, "HarnessPipe", prop, m, steps, kinds)
+	j.MapOrderSites = []string{"OnCReact", "CRespCodec).MGet"}
+	return j
+}
+
+const worldAssume = "event schedules are sequences of: a client read, a poller task drain (at most two other events may precede a pending drain, as with one epoll batch), a backend reply read, and the enabled faults; backends answer the oldest request received on that connection with an echo of its keys; map iteration order explored in OnCReact and CRespCodec.MGet"
+
+func init() {
+	const allKinds = 127
+	register(&CheckSpec{ID: "C01", Patterns: []string{pkgServer},
+		Jobs: func(tier string) []*JobCfg {
+			if tier == "thorough" {
+				return []*JobCfg{pipe(1, 1, 6, allKinds), pipe(1, 2, 9, allKinds), pipe(1, 3, 9, 1|4|8|16|64), world(1, 1, 1, 8, 1|4|8, 0), world(1, 2, 1, 8, 1|8, 0)}
+			}
+			return []*JobCfg{pipe(1, 1, 6, allKinds), pipe(1, 2, 8, allKinds), pipe(1, 3, 6, 1|8|64)}
+		},
+		Bounds: func(tier string) string {
+			return "pipelines of 1..3 requests, each of a solver-chosen kind (GET, SET, two-key MGET over one or two nodes, PING, unknown command, wrong arity, QUIT last) with solver-chosen key bytes/owner, every schedule of up to 8 (quick) / 9 (thorough) events; thorough adds a second concurrent client"
+		},
+		Assumptions: []string{worldAssume}, Stubs: []string{stubWorld},
+		Outside: []string{"longer pipelines and schedules, more than two backends/clients, reply contents other than key echoes"}})
+	register(&CheckSpec{ID: "C09", Patterns: []string{pkgServer},
+		Jobs: func(tier string) []*JobCfg {
+			if tier == "thorough" {
+				return []*JobCfg{pipe(9, 2, 9, allKinds), pipe(9, 3, 9, 1|4|8), world(9, 2, 1, 8, 1|4, 0)}
+			}
+			return []*JobCfg{pipe(9, 2, 8, allKinds), pipe(9, 3, 7, 1|8)}
+		},
+		Bounds: func(tier string) string {
+			return "liveness reduced to a one-step progress obligation: after EVERY backend-reply event in every schedule (2..3 requests, <= 8/9 events) no completed request is left at the head of the client's queue, i.e. the longest completed prefix has been written"
+		},
+		Assumptions: []string{worldAssume, "'promptly' = within the same event-loop event; unbounded histories are covered only through this inductive step"}, Stubs: []string{stubWorld},
+		Outside: []string{"real time, fairness of epoll, more than 3 outstanding requests"}})
+	register(&CheckSpec{ID: "C10", Patterns: []string{pkgServer},
+		Jobs: func(tier string) []*JobCfg {
+			if tier == "thorough" {
+				return []*JobCfg{pipe(10, 2, 8, 7), pipe(10, 3, 8, 3), world(10, 2, 1, 8, 3, 0), world(10, 1, 1, 8, 7, 0)}
+			}
+			return []*JobCfg{pipe(10, 2, 7, 7), world(10, 1, 1, 6, 3, 0)}
+		},
+		Bounds: func(tier string) string {
+			return "1..2 clients, 2..3 forwarded requests (GET/SET/MGET) with solver-chosen owners, every schedule up to 7/8 events; per backend connection the order of each client's requests is compared with that client's send order"
+		},
+		Assumptions: []string{worldAssume, "one connection per backend node, no redirects"}, Stubs: []string{stubWorld},
+		Outside: []string{"redirected requests (a MOVED/ASK re-send legitimately reorders), more than one connection per node"}})
+	register(&CheckSpec{ID: "C03", Patterns: []string{pkgServer},
+		Jobs: func(tier string) []*JobCfg {
+			if tier == "thorough" {
+				return []*JobCfg{world(3, 1, 1, 8, 5, 2), world(3, 1, 1, 8, 5, 1), world(3, 1, 1, 8, 5, 4), world(3, 2, 1, 7, 4, 2), world(3, 1, 1, 7, 5, 8), world(3, 1, 1, 6, 5, 16)}
+			}
+			return []*JobCfg{world(3, 1, 1, 6, 5, 2), world(3, 1, 1, 6, 5, 1), world(3, 1, 1, 6, 4, 4)}
+		},
+		Bounds: func(tier string) string {
+			return "two clients with 1..2 requests each (GET / two-key MGET, solver-chosen owners and key bytes), every schedule up to 6 (quick) / 8 (thorough) events, with one of: node B's slots unowned, a client disconnecting mid-flight, dialling node B failing; thorough adds backend loss and timeouts"
+		},
+		Assumptions: []string{worldAssume, "sync.Pool modelled as LIFO (the behaviour of a single goroutine between GCs), so a recycled request object is reused by the very next request"}, Stubs: []string{stubWorld},
+		Outside: []string{"more clients/requests, sync.Pool handing out older objects"}})
+	register(&CheckSpec{ID: "C15", Patterns: []string{pkgServer},
+		Jobs: func(tier string) []*JobCfg {
+			if tier == "thorough" {
+				return []*JobCfg{world(15, 2, 0, 8, 5, 8), world(15, 1, 1, 7, 5, 8), world(15, 2, 0, 7, 5, 4), job(pkgServer, "HarnessC13", 0), job(pkgServer, "HarnessC13", 1)}
+			}
+			return []*JobCfg{world(15, 2, 0, 6, 5, 8), world(15, 2, 0, 6, 5, 4), job(pkgServer, "HarnessC13", 0)}
+		},
+		Bounds: func(tier string) string {
+			return "pipelines of 2 requests (GET / two-key MGET), a backend connection lost at ANY point of every schedule up to 6/8 events (before the request is written, after it, after other replies), or dialling a node failing, or a redirect naming an unknown node; at quiescence every request is answered or its client closed"
+		},
+		Assumptions: []string{worldAssume, "'lost' = the backend closes its end and the proxy reads EOF"}, Stubs: []string{stubWorld},
+		Outside: []string{"loss in the middle of a reply's bytes, node removal by the topology ticker, write errors other than EOF"}})
+	register(&CheckSpec{ID: "C16", Patterns: []string{pkgServer},
+		Jobs: func(tier string) []*JobCfg {
+			if tier == "thorough" {
+				return []*JobCfg{world(16, 2, 0, 8, 5, 16), world(16, 3, 0, 7, 1, 16), world(16, 1, 1, 7, 5, 16)}
+			}
+			return []*JobCfg{world(16, 2, 0, 6, 5, 16), world(16, 2, 0, 7, 1, 16)}
+		},
+		Bounds: func(tier string) string {
+			return "pipelines of 2..3 requests (GET / two-key MGET), timeout 50 ms of model time, time passes beyond the timeout at ANY single point of every schedule up to 6/8 events, backends may answer before, after or never; at quiescence every request has exactly one reply, in order, the connection is open"
+		},
+		Assumptions: []string{worldAssume, "model clock: each clock reading advances 1 microsecond, 'time passes' advances 70 ms; the timeout sweep runs after every event as at the end of every poller iteration"}, Stubs: []string{stubWorld},
+		Outside: []string{"real time, the 200 ms epoll cadence, several separate timeouts in one run"}})
+	register(&CheckSpec{ID: "C13", Patterns: []string{pkgServer},
+		Jobs: func(tier string) []*JobCfg {
+			return []*JobCfg{job(pkgServer, "HarnessC13", 0), job(pkgServer, "HarnessC13", 1)}
+		},
+		Bounds: func(tier string) string {
+			return "one redirect step: solver-chosen kind (MOVED/ASK), known or unknown target, single-key request or fragment of a split MGET, first or second position in a two-request pipeline, other node answering before or after"
+		},
+		Assumptions: []string{"termination is claimed per redirect step (the proxy has no hop limit)"}, Stubs: []string{stubWorld},
+		Outside: []string{"chains of redirects, redirects arriving while the target connection is being dialled unsuccessfully"}})
+	register(&CheckSpec{ID: "C04", Patterns: []string{pkgServer},
+		Jobs: func(tier string) []*JobCfg {
+			js := []*JobCfg{job(pkgServer, "HarnessC04", 1, 0, 0), job(pkgServer, "HarnessC04", 0, 0, 1), job(pkgServer, "HarnessC04", 1, 1, 0)}
+			if tier == "thorough" {
+				js = append(js, job(pkgServer, "HarnessC04", 2, 0, 1), job(pkgServer, "HarnessC04", 2, 1, 1), job(pkgServer, "HarnessC04", 0, 0, 0))
+			}
+			return js
+		},
+		Bounds: func(tier string) string {
+			return "every forwarded single-key command of the documented table, key = 2 arbitrary bytes (slot = real CRC16 of arbitrary data), three replica sets over [0,99] [200,8191] [8192,16383] with an unowned gap, 0..2 replicas each, replica reads on/off, backend password on/off"
+		},
+		Assumptions: []string{"read-only command list taken from the Redis command reference; scans and scripts must go to the master"}, Stubs: []string{stubWorld, "math/rand.Intn = arbitrary value in range"},
+		Outside: []string{"other range layouts, more than three replica sets, multi-key commands (their fragments are routed by the same code per slot)"}})
+	register(&CheckSpec{ID: "C20", Patterns: []string{pkgServer}, GoalsMust: true,
+		Jobs: func(tier string) []*JobCfg {
+			return []*JobCfg{job(pkgServer, "HarnessC20", 2, 0), job(pkgServer, "HarnessC20", 2, 1), job(pkgServer, "HarnessC20", 2, 2), job(pkgServer, "HarnessC20", 1, 0)}
+		},
+		Bounds: func(tier string) string {
+			return "a master with 1..2 replicas, every ban configuration; for every replica that is not banned the solver must find a value of the random source that selects it (cover goal)"
+		},
+		Assumptions: []string{"a uniform random source reaches every value; the claim is reachability of every healthy replica, not a distribution"}, Stubs: []string{stubWorld, "math/rand.Intn = arbitrary value in range"},
+		Outside: []string{"statistical quality of math/rand, the ban-timer arithmetic"}})
+	register(&CheckSpec{ID: "C07", Patterns: []string{pkgServer},
+		Jobs: func(tier string) []*JobCfg {
+			js := []*JobCfg{job(pkgServer, "HarnessC07", 0, 2, 0), job(pkgServer, "HarnessC07", 1, 2, 0), job(pkgServer, "HarnessC07", 2, 2, 0), job(pkgServer, "HarnessC07", 1, 3, 0)}
+			if tier == "thorough" {
+				js = append(js, job(pkgServer, "HarnessC07", 0, 3, 0), job(pkgServer, "HarnessC07", 2, 3, 0))
+			}
+			return js
+		},
+		Bounds: func(tier string) string {
+			return "MGET/DEL/MSET with 2..3 keys on solver-chosen nodes (duplicates included), every value null / empty / 1..2 arbitrary bytes, DEL counts arbitrary, both arrival orders of the fragment replies, each reply in one or two reads"
+		},
+		Assumptions: []string{"backend contract: a fragment's MGET reply has one element per key sent and equal elements for equal keys; DEL replies are single digits"}, Stubs: []string{stubWorld},
+		Outside: []string{"more than 3 keys / 2 nodes, counts >= 10"}})
+	register(&CheckSpec{ID: "C11", Patterns: []string{pkgServer},
+		Jobs: func(tier string) []*JobCfg {
+			js := []*JobCfg{job(pkgServer, "HarnessC11Single"), job(pkgServer, "HarnessC07", 1, 2, 1), job(pkgServer, "HarnessC07", 2, 2, 1)}
+			if tier == "thorough" {
+				js = append(js, job(pkgServer, "HarnessC07", 0, 2, 1), job(pkgServer, "HarnessC07", 1, 3, 1))
+			} else {
+				js = append(js, job(pkgServer, "HarnessC07", 0, 1, 1))
+			}
+			return js
+		},
+		Bounds: func(tier string) string {
+			return "error replies '-XYZ x' with EVERY three-capital-letter code other than the ones the proxy acts on, on any subset of the fragments of a 1..3-key MGET/DEL/MSET in both arrival orders and split reads; single-key GET answered with such an error"
+		},
+		Assumptions: []string{"error text after the code is fixed; codes are three capital letters"}, Stubs: []string{stubWorld},
+		Outside: []string{"replies of the wrong shape that a Redis node cannot produce (e.g. a status reply to MGET)"}})
+	register(&CheckSpec{ID: "C08", Patterns: []string{pkgCore},
+		Jobs: func(tier string) []*JobCfg {
+			pairs := [][2]int64{{0, 1}, {4, 2}, {2, 5}, {3, 6}}
+			if tier == "thorough" {
+				pairs = append(pairs, [2]int64{1, 7}, [2]int64{6, 4}, [2]int64{4, 4}, [2]int64{5, 3})
+			}
+			var js []*JobCfg
+			for _, p := range pairs {
+				js = append(js, sites(withSumHash(job(pkgCore, "HarnessC08", p[0], p[1], -1, 0)), "CRespCodec).MGet"))
+			}
+			js = append(js, sites(job(pkgCore, "HarnessC08", 0, 2, -1, 0), "CRespCodec).MGet"))
+			if tier == "thorough" {
+				js = append(js, sites(withSumHash(job(pkgCore, "HarnessC08", 0, 1, -1, -1)), "CRespCodec).MGet"), sites(withSumHash(job(pkgCore, "HarnessC08", 4, 2, -1, -1)), "CRespCodec).MGet"))
+			}
+			return js
+		},
+		Bounds: func(tier string) string {
+			return "streams of two pipelined requests of 8 shapes (GET/SET/MGET/DEL/PING/arbitrary 3-byte command name, arbitrary binary key and value bytes incl. CR/LF, empty arguments), EVERY two-way cut position (thorough: every three-way cut for two shape pairs); differential against the same real code on the uncut stream"
+		},
+		Assumptions: []string{"well-formed streams are generated constructively (canonical lengths); in jobs marked H=spec hashkit.Hash is replaced by its specification (C05)"}, Stubs: []string{stubWorld},
+		Outside: []string{"requests larger than the 1 KiB inbound ring (growth is C19), more than two requests per stream"}})
+	register(&CheckSpec{ID: "C02", Patterns: []string{pkgServer, pkgCore},
+		Jobs: func(tier string) []*JobCfg {
+			var js []*JobCfg
+			for n := int64(1); n <= 4; n++ {
+				js = append(js, withSumHash(job(pkgCore, "HarnessC02Req", n, 2)))
+			}
+			js = append(js, job(pkgCore, "HarnessC02Req", 1, 3), withSumHash(job(pkgCore, "HarnessC02Req", 2, 0)))
+			for shape := int64(0); shape <= 9; shape++ {
+				js = append(js, job(pkgServer, "HarnessC02Rsp", shape, 0, 0))
+			}
+			js = append(js, job(pkgServer, "HarnessC02Rsp", 3, 1, 0), job(pkgServer, "HarnessC02Rsp", 7, 2, 0), job(pkgServer, "HarnessC02Rsp", 8, 0, 3), job(pkgServer, "HarnessC02Rsp", 3, 0, 1))
+			if tier == "thorough" {
+				for shape := int64(0); shape <= 9; shape++ {
+					js = append(js, job(pkgServer, "HarnessC02Rsp", shape, 1, 2))
+				}
+				js = append(js, withSumHash(job(pkgCore, "HarnessC02Req", 5, 1)), withSumHash(job(pkgCore, "HarnessC02Req", 3, 3)))
+			}
+			return js
+		},
+		Bounds: func(tier string) string {
+			return "requests: every single-key command of the table whose arity admits 1..4 (thorough 5) arguments, any letter case, every argument 0..3 arbitrary bytes; replies: 10 RESP2 shapes (status, error, integer, bulk, null, empty, empty array, mixed array, nested array, empty status) with arbitrary content bytes, every two-way cut of handshake+reply, 0..2 handshake replies, slow reader accepting 1..3 bytes then 2 at a time"
+		},
+		Assumptions: []string{"short writes exist only in the socket model (a native run cannot force them); counterexamples that need them are reported as model-level"}, Stubs: []string{stubWorld},
+		Outside: []string{"multi-megabyte values, nesting deeper than 2, the redirect and authentication errors the proxy itself acts on"}})
+	register(&CheckSpec{ID: "C19", Patterns: []string{pkgRing, pkgList, pkgElastic},
+		Jobs: func(tier string) []*JobCfg {
+			var js []*JobCfg
+			sizes := []int64{0, 2, 4}
+			if tier == "thorough" {
+				sizes = []int64{0, 2, 4, 8}
+			}
+			for _, sz := range sizes {
+				for op := int64(0); op <= 6; op++ {
+					ns := []int64{0, 1, 3, sz + 2}
+					if op >= 4 {
+						ns = []int64{0}
+					}
+					for _, n := range ns {
+						js = append(js, job(pkgRing, "HarnessC19Ring", sz, op, n))
+					}
+				}
+			}
+			js = append(js, job(pkgRing, "HarnessC19Ring", 4, 2, -1), job(pkgRing, "HarnessC19Ring", 4, 1, -1))
+			js = append(js, job(pkgRing, "HarnessC19Grow", 4096, 100, 4000, 200), job(pkgRing, "HarnessC19Grow", 4096, 0, 4096, 1), job(pkgRing, "HarnessC19Grow", 1024, 1000, 600, 5000), job(pkgRing, "HarnessC19Grow", 8192, 8000, 500, 3000))
+			for k := int64(0); k <= 2; k++ {
+				for op := int64(0); op <= 6; op++ {
+					for _, n := range []int64{0, 1, 2, 4, 7} {
+						if op == 4 && n > 0 {
+							continue
+						}
+						js = append(js, job(pkgList, "HarnessC19List", k, op, n))
+					}
+				}
+			}
+			rs := []int64{0, 4}
+			if tier == "thorough" {
+				rs = []int64{0, 2, 4, 8}
+			}
+			defer func() {
+				for _, j := range js {
+					j.Witnesses = 2
+				}
+			}()
+			for _, r := range rs {
+				for k := int64(0); k <= 1; k++ {
+					for _, ms := range []int64{2, 4, 8} {
+						for op := int64(0); op <= 5; op++ {
+							for _, n := range []int64{0, 1, 3, 6} {
+								if op == 5 && n > 0 {
+									continue
+								}
+								js = append(js, job(pkgElastic, "HarnessC19Elastic", r, k, ms, op, n))
+							}
+						}
+					}
+				}
+			}
+			return js
+		},
+		Bounds: func(tier string) string {
+			return "ONE operation from ANY valid state (inductive step): ring of 0/2/4(/8) bytes in every read/write position, empty or not, arbitrary contents, operation sizes 0..size+2 (growth included) and negative; list of 0..2 nodes of 1..3 bytes; composite of ring + list with static limit 2/4/8; real grow() across the 4 KiB threshold at four concrete geometries"
+		},
+		Assumptions: []string{"representation invariants stated in the harness (ring: positions in range, len(buf)==size, empty implies r==w; list: size/bytes/tail consistent, no empty node); because each step re-establishes them, histories of any length over these sizes are covered"},
+		Stubs:       []string{"byteslice pool = LIFO per size class with stale contents"},
+		Outside:     []string{"contents of rings larger than 8 bytes (only grow() is run at 1-8 KiB), ReadFrom/WriteTo/CopyFromSocket (unused by the proxy)"}})
+	register(&CheckSpec{ID: "C14", Patterns: []string{pkgCore}, AllowBlocked: true,
+		Jobs: func(tier string) []*JobCfg {
+			return []*JobCfg{noMapOrder(job(pkgCore, "HarnessC14Loop")), noMapOrder(job(pkgCore, "HarnessC14Parse")), noMapOrder(job(pkgCore, "HarnessC14Ticker"))}
+		},
+		Bounds: func(tier string) string {
+			return "(a) refresh loop: one unusable probe reply of 6 classes (status, nil, error with arbitrary code, too few nodes, arbitrary 4-byte text, arbitrary 2-byte status) followed by a valid one; (b) node filter: role x every subset/placement of {myself, fail?, fail, handshake, noaddr} x link state x INFO loading/master_link answers; (c) slot table rebuild with the last range end in {16383, 16000, 16384, 20000, 5460} and an arbitrary probe slot"
+		},
+		Assumptions: []string{"INFO answers come from a fake RedisWrapper; cornelk/hashmap is modelled as an ideal map; the refresh goroutine body is run to its next blocking receive", "map iteration order not explored here"},
+		Stubs:       []string{stubWorld, "hashmap.HashMap = ideal map", "context.WithCancel = no-op"},
+		Outside:     []string{"the unsynchronised sharing of ClusterNodes between the refresh goroutine and the event loop, real INFO dialling, 'within a few seconds', change detection over arbitrary histories"}})
+	register(&CheckSpec{ID: "C18", Patterns: []string{pkgServer, pkgAuthip},
+		Jobs: func(tier string) []*JobCfg {
+			js := []*JobCfg{noMapOrder(job(pkgAuthip, "HarnessC18", 1)), noMapOrder(job(pkgAuthip, "HarnessC18", 2)), noMapOrder(job(pkgServer, "HarnessC18Admit"))}
+			if tier == "thorough" {
+				js = append(js, noMapOrder(job(pkgAuthip, "HarnessC18", 3)))
+			}
+			return js
+		},
+		Bounds: func(tier string) string {
+			return "every history of 1..2 (thorough 3) rewrites of the whitelist file over {enable on/off} x {every subset of 3 addresses}, then admission of each address; connection admission for 4 source addresses with the real OnCOpened/closeConn"
+		},
+		Assumptions: []string{"the file watcher is replaced by calling parseAuthIp directly; yaml.Unmarshal reads the canonical documents the harness writes; cornelk/hashmap is modelled as an ideal map"},
+		Stubs:       []string{stubWorld, "hashmap.HashMap = ideal map", "yaml.Unmarshal = reader of canonical documents", "ioutil.ReadFile = in-memory file table"},
+		Outside:     []string{"fsnotify delivery and latency, YAML syntax variety, IPv6 address text, the concurrent read of the map by the event loop during a reload"}})
+}
+
 func init() {
 	register(&CheckSpec{ID: "SMOKE", Patterns: []string{pkgServer},
 		Jobs: func(tier string) []*JobCfg { return []*JobCfg{job(pkgServer, "HarnessSmoke")} }})
